@@ -73,5 +73,13 @@ CLAIMS = {
           '(2) 16 threads parse the whole stream in shuffled orders in one process and every per-input result is identical on all threads, to a sequential run, to a second pass in the same process, and to the Lean model. Streams include twin-character inputs (code points agreeing in their low 16 bits / low byte) aimed at truncating caches. Partial: schedules are the ones the OS produced.',
   'note': 'A data race that does not manifest in the observed schedules is not exhibited; the static scan is textual.',
  },
+ 'C01': {
+  'category': 'proof',
+  'technique': 'Lean 4 proof that the scanner model never reaches a panic site (any state, any input) + child-process execution of general streams and ~45 deep/long families in debug and release + model correspondence on outcome class',
+  'text': 'nextToken_no_panic: for every scanner state, next_token returns a token, EOF or an error value - all indexing sites of scanner.rs and the usize subtraction of line_info are unreachable out of range (no bound on input). '
+          'The parser half is decided on the real process: every case runs in a child on the default 8 MiB stack in debug and release builds with a time limit; general streams (corpus, mutants, soup, UTF-8 soup, fuzz inputs; from memory and from disk; parse + Debug + drop) must answer, and the model must agree on ok/error/panic; '
+          'deep/long families of every recursive or iterative construct at depths 1..10^4 (10^5 thorough) must answer. The property is FALSE of the code for uncounted recursion (K3), Debug/Drop of left-deep trees (K4) and an exponential re-parse (K5): each is a listed known finding per family; any other family or input that kills the process, panics or times out is a violation. Partial proof.',
+  'note': 'The model has no stack model (frames are not bytes): stack exhaustion and time are observed on the real process only. A whole-parser no-panic theorem over the parser model is not yet proved.',
+ },
 }
 NOT_CLAIMED = {}
